@@ -31,4 +31,10 @@ def run(prog, rep, tier):
     q = r_pure.q1(prog)
     apply(rep, "Q1", "no parameter-dependent function-local static", ([i for i in q[0] if i[0].startswith("Q1iii")],
                                                                     [f for f in q[1] if f["key"].startswith("Q1iii")]), 1)
+    import r_stream as _rs
+    e9 = _rs.e9(prog, tier)
+    if getattr(e9, "broken", None):
+        apply(rep, "E9", "lexical names: binding, shadowing, per-stack values, rebinding and unbound names, through assertions, captures, alternatives, closures (engine interpreted against the reference semantics)", e9, 1)
+    else:
+        apply(rep, "E9", "lexical names: binding, shadowing, per-stack values, rebinding and unbound names, through assertions, captures, alternatives, closures (engine interpreted against the reference semantics)", ([i for i in e9[0] if i[0] in ('E9:names',)], [f for f in e9[1] if f["key"] in ('E9:names',)]), 1)
     maybe_mutants("C03", rep, tier)
